@@ -56,6 +56,42 @@ CLAIMED = {
                  "terms symbolically. Does not decide sympy parsing or compiled-code numerics.",
         "note": _TB,
     },
+    "C04": {
+        "technique": "static analysis: typestate/dominance over the CFG of SimulateOde._jump (a state is recorded only "
+                     "under a positive success test; failure ends the run), provenance of recorded values to stepper "
+                     "result slots, abstract evaluation of the per-event tau step and of the limit test, arity agreement, "
+                     "shape inference of vMat",
+        "level": "Decides that a recorded state can only be x + V[:,k]*n (+drift) that passed _checkJump, that counts "
+                 "reported equal counts applied (same index, same draw; one-hot in exact mode), that t_new = t + dt on "
+                 "success and nothing changes on failure, that vMat is a matrix for every model size, and that stepper "
+                 "returns have the arity their callers unpack (three named, unreachable exceptions). Does not decide "
+                 "positivity/integrality of numpy draws or termination time.",
+        "note": _TB,
+    },
+    "C05": {
+        "technique": "static analysis: premises of the first-reaction theorem as data-flow facts (own rate in rexp's rate "
+                     "slot under r>0, scale=1/rate, argmin index shared by event choice and time increment)",
+        "level": "Decides only the three structural premises under which the first-reaction method samples the CTMC law; "
+                 "the law itself (a statistical statement about runs) is not decided.",
+        "note": _TB + "; first-reaction theorem (Gillespie 1976)",
+    },
+    "C10": {
+        "technique": "static analysis: same-value/opposite-sign pairing in the T-branch of the ODE and state-change-matrix "
+                     "builders, additive accumulation, column-update-only provenance of the simulated state",
+        "level": "Structural proof that for transition-only models the ODE components and every state-change column sum "
+                 "to zero identically (for all rates and magnitudes), and that stochastic paths move only by such columns. "
+                 "Deterministic conservation 'within solver tolerance' is not decided.",
+        "note": _TB,
+    },
+    "C11": {
+        "technique": "static analysis: finite abstract evaluation of the limit test over all (lower, upper) shapes x "
+                     "{below, inside, above}; typestate of the success flag over the CFG of _jump and the steppers; "
+                     "default-limit data flow",
+        "level": "Decides that a step is rejected iff it leaves a present bound, for every state; that rejection returns "
+                 "the old state/time; that only accepted states are recorded; that failure of the fall-back ends the run; "
+                 "that undeclared limits default to (0, None). The initial state being inside the limits is user input.",
+        "note": _TB,
+    },
 }
 
 NOT_APPLICABLE = {}
